@@ -66,6 +66,8 @@ def standalone(ctx, path, cuts=CUTS, names=None, plain=False):
         if plain:
             # loop-carrying function: no forced partitioning on argument kinds (joined at the loop head anyway)
             eng = Engine(F, budget=3000000)
+            eng.model_lazy_collect = True   # a decode loop written as iter().map(..).collect() is analysed as a loop
+            eng.len_bound_all_joins = True
         b = F.body(path)
         if b is None:
             _cache[k] = (None, None)
